@@ -424,7 +424,22 @@ func (res *Resource) Blacklist(version string) error {
 // Purge deletes old updates, retaining a certain amount, specified by
 // the keep parameter. Purge will always keep at least 2 versions so
 // specifying a smaller keep value will have no effect.
-func (res *Resource) Purge(keepExtra int) { //nolint:gocognit
+func (res *Resource) Purge(keepExtra int) {
+	// Get the storage paths of all resource versions of the registry, so that
+	// the file of another resource is not mistaken for an unpacked version.
+	var storagePaths map[string]struct{}
+	if res.registry != nil {
+		res.registry.RLock()
+		storagePaths = res.registry.storagePaths()
+		res.registry.RUnlock()
+	}
+
+	res.purge(keepExtra, storagePaths)
+}
+
+// purge implements Purge. The unpacked version of a purged resource version is
+// left alone if its path is one of the given storage paths.
+func (res *Resource) purge(keepExtra int, storagePaths map[string]struct{}) { //nolint:gocognit
 	res.Lock()
 	defer res.Unlock()
 
@@ -524,6 +539,12 @@ boundarySearch:
 			continue
 		}
 		unpackedPath := strings.TrimSuffix(storagePath, ext)
+
+		// Do not touch the path if it is the file of another resource version,
+		// eg. "a/b_v1-0-0" of resource "a/b" when purging "a/b_v1-0-0.zip".
+		if _, ok := storagePaths[unpackedPath]; ok {
+			continue
+		}
 
 		// Remove if it exists, or an error occurs on access.
 		_, err = os.Stat(unpackedPath)
